@@ -59,7 +59,7 @@ const histModes = "HENSGXC"
 // emitRequirer: generate cases with flag q (requirer = the link entries only; the final view is pruned by
 // removeUnnecessaryFileNodes). Off until the repair of the pruning loop is in /repo: on the unrepaired tree a required
 // symlink that another required symlink reaches first (map iteration order!) loses its own targets (fix-c17-cov/1.diff).
-const emitRequirer = false
+const emitRequirer = true
 
 func hexs(s string) string { return hex.EncodeToString([]byte(s)) }
 
